@@ -433,7 +433,7 @@ func (h *RequestHeader) AppendBytes(dst []byte) []byte {
 		// cookie names and values come from the application like any other header value:
 		// neutralise line breaks in them as appendHeaderLine does
 		for i := m; i < len(dst); i++ {
-			dst[i] = bytesconv.NewlineToSpaceTable[dst[i]]
+			dst[i] = fieldValueByte(dst[i])
 		}
 		dst = append(dst, bytestr.StrCRLF...)
 	}
@@ -1704,9 +1704,18 @@ func newlineToSpace(val []byte) []byte {
 	filteredVal := make([]byte, len(val))
 	copy(filteredVal, val)
 	for i := 0; i < len(filteredVal); i++ {
-		filteredVal[i] = bytesconv.NewlineToSpaceTable[filteredVal[i]]
+		filteredVal[i] = fieldValueByte(filteredVal[i])
 	}
 	return filteredVal
+}
+
+// fieldValueByte neutralises the bytes RFC 9110 section 5.5 calls invalid and dangerous in a field value:
+// CR, LF and NUL are written as SP (recipients either do the same or reject the whole message).
+func fieldValueByte(c byte) byte {
+	if c == 0 {
+		return ' '
+	}
+	return bytesconv.NewlineToSpaceTable[c]
 }
 
 func UpdateServerDate() {
